@@ -180,7 +180,7 @@ func readResult(path string) (*Result, error) {
 	return r, nil
 }
 
-const defaultCaseTimeout = 120
+const defaultCaseTimeout = 60
 
 // workerMain runs a shard of the plan.
 func workerMain(m *Monitor, tier string, seed uint64, shard, nshards int, skip map[int64]bool, out string, only int64, timeoutMul int) {
@@ -309,6 +309,31 @@ func selfExe() string {
 	return p
 }
 
+// children is the registry of running worker processes; abortAll kills them
+// once a confirmed non-returning or process-fatal case has decided the run.
+var children struct {
+	sync.Mutex
+	m       map[*exec.Cmd]bool
+	aborted bool
+}
+
+func abortAll() {
+	children.Lock()
+	defer children.Unlock()
+	children.aborted = true
+	for c := range children.m {
+		if c.Process != nil {
+			c.Process.Kill()
+		}
+	}
+}
+
+func aborted() bool {
+	children.Lock()
+	defer children.Unlock()
+	return children.aborted
+}
+
 func runChild(args []string, logPath string) (int, error) {
 	cmd := exec.Command(selfExe(), args...)
 	lf, err := os.Create(logPath)
@@ -319,7 +344,24 @@ func runChild(args []string, logPath string) (int, error) {
 	cmd.Stdout = lf
 	cmd.Stderr = lf
 	cmd.Env = append(os.Environ(), "GORACE=halt_on_error=0 exitcode=0 log_path="+logPath+".race")
-	err = cmd.Run()
+	children.Lock()
+	if children.aborted {
+		children.Unlock()
+		return -2, nil
+	}
+	if children.m == nil {
+		children.m = map[*exec.Cmd]bool{}
+	}
+	if err := cmd.Start(); err != nil {
+		children.Unlock()
+		return -1, err
+	}
+	children.m[cmd] = true
+	children.Unlock()
+	err = cmd.Wait()
+	children.Lock()
+	delete(children.m, cmd)
+	children.Unlock()
 	if err == nil {
 		return 0, nil
 	}
@@ -474,6 +516,9 @@ func parentMain(m *Monitor, tier string, seed uint64) int {
 			defer wg.Done()
 			var skipped []string
 			for attempt := 0; attempt < 8; attempt++ {
+				if aborted() {
+					return
+				}
 				out := filepath.Join(work, fmt.Sprintf("w%d.%d.res", sh, attempt))
 				code, err := runChild([]string{"-prop", m.ID, "-tier", tier, "-seed", fmt.Sprint(seed), "-worker",
 					"-shard", fmt.Sprint(sh), "-nshards", fmt.Sprint(nw), "-skip", strings.Join(skipped, ","), "-out", out}, out+".log")
@@ -487,6 +532,9 @@ func parentMain(m *Monitor, tier string, seed uint64) int {
 					mu.Lock()
 					total.Merge(res)
 					mu.Unlock()
+					return
+				}
+				if aborted() {
 					return
 				}
 				// find the offending case
@@ -507,8 +555,11 @@ func parentMain(m *Monitor, tier string, seed uint64) int {
 				// re-run the case alone, generous budget
 				out1 := filepath.Join(work, fmt.Sprintf("solo.%d.res", g))
 				code1, _ := runChild([]string{"-prop", m.ID, "-tier", tier, "-seed", fmt.Sprint(seed), "-worker", "-only", fmt.Sprint(g),
-					"-timeoutmul", "5", "-out", out1}, out1+".log")
+					"-timeoutmul", "3", "-out", out1}, out1+".log")
 				res1, rerr1 := readResult(out1)
+				if aborted() {
+					return
+				}
 				v := Violation{Property: m.ID, Suite: cr.suite, Index: cr.idx, Seed: seed, Tier: tier, Site: "case"}
 				switch {
 				case code1 == 0 && rerr1 == nil && res1.Done:
@@ -522,7 +573,8 @@ func parentMain(m *Monitor, tier string, seed uint64) int {
 				case code1 == 3:
 					v.Clause = "no-return"
 					v.Trigger = hangTrigger(out1 + ".log")
-					v.Detail = fmt.Sprintf("case did not return within 5x the case budget when run alone; goroutine dump head:\n%s", headFile(out1+".log", 3000))
+					abortAll() // the run is decided; do not burn the budget on the other shards
+					v.Detail = fmt.Sprintf("case did not return within 3x the case budget when run alone; goroutine dump head:\n%s", headFile(out1+".log", 3000))
 					mu.Lock()
 					total.Violations = append(total.Violations, v)
 					total.ViolCount++
@@ -530,6 +582,7 @@ func parentMain(m *Monitor, tier string, seed uint64) int {
 				default:
 					v.Clause = "process-fatal"
 					v.Trigger = fatalTrigger(out1 + ".log")
+					abortAll()
 					v.Detail = fmt.Sprintf("process died (exit %d) running this case alone:\n%s", code1, headFile(out1+".log", 3000))
 					mu.Lock()
 					total.Violations = append(total.Violations, v)
